@@ -47,6 +47,10 @@ type run struct {
 	hist  []porcupine.Operation
 	clock int
 	seenT map[uint64]bool
+	// the current burst: operations in flight at once, and the seat map
+	// they started from (for the sequential-equivalence check)
+	burstSnap *sm.SeatManagerState
+	burstOps  []*gor
 }
 
 func (r *run) viol(prop, sig, detail string) {
@@ -557,6 +561,9 @@ func drawCfg(rng *sim.RNG, prop string) *Cfg {
 	if prop == "C18" && rng.Chance(0.35) {
 		c.Mode = "conc"
 	}
+	if (prop == "C08" || prop == "C17") && rng.Chance(0.15) {
+		c.Mode = "conc"
+	}
 	return c
 }
 
@@ -720,6 +727,42 @@ func (r *run) genConc(rng *sim.RNG) {
 	gid := 0
 	bursts := 1 + rng.Intn(3)
 	total := 0
+	// a populated table first (sequential goroutines), so that Next() has something to do
+	if rng.Chance(0.7) {
+		m := 2 + rng.Intn(n-1)
+		if m > 5 {
+			m = 5
+		}
+		for _, seat := range rng.Perm(n)[:m] {
+			for _, op := range []opSpec{{Kind: "join", Seat: seat, PID: nextPID()}, {Kind: "sit", Seat: seat}} {
+				if op.Kind == "sit" && rng.Chance(0.15) {
+					continue
+				}
+				gid++
+				total++
+				r.record(sim.Step{Actor: "player", Op: "go", Args: []int64{int64(gid), int64(op.Seat), int64(op.PID)}, SArgs: []string{op.Kind}})
+				g := r.concSpawn(gid, op)
+				for r.gState(g) != gFinished && !r.dead {
+					r.record(sim.Step{Actor: "sched", Op: "run", Args: []int64{int64(g.id)}})
+					if !r.concRun(g.id) {
+						break
+					}
+				}
+			}
+		}
+		if rng.Chance(0.6) {
+			gid++
+			total++
+			r.record(sim.Step{Actor: "table", Op: "go", Args: []int64{int64(gid), 0, 0}, SArgs: []string{"next"}})
+			g := r.concSpawn(gid, opSpec{Kind: "next"})
+			for r.gState(g) != gFinished && !r.dead {
+				r.record(sim.Step{Actor: "sched", Op: "run", Args: []int64{int64(g.id)}})
+				if !r.concRun(g.id) {
+					break
+				}
+			}
+		}
+	}
 	for b := 0; b < bursts && !r.dead && total < 34; b++ {
 		// a few sequential operations between bursts (each is a goroutine run to completion)
 		for k := rng.Intn(4); k > 0 && total < 34; k-- {
@@ -738,7 +781,13 @@ func (r *run) genConc(rng *sim.RNG) {
 		// the burst: k operations in flight at once
 		k := 2 + rng.Intn(5)
 		r.probe("concurrent-burst")
-		kind := rng.Intn(4) // 0 same seat, 1 any seat, 2 mixed joins, 3 mixed everything
+		kind := rng.Intn(5) // 0 same seat, 1 any seat, 2 mixed joins, 3 mixed everything, 4 next-hand racing with seat changes
+		if !r.on("C18") {
+			kind = 4
+		}
+		if kind == 4 && k > 4 {
+			k = 2 + rng.Intn(3)
+		}
 		target := rng.Intn(n)
 		for j := 0; j < k && total < 40; j++ {
 			var op opSpec
@@ -749,6 +798,15 @@ func (r *run) genConc(rng *sim.RNG) {
 				op = opSpec{Kind: "join", Seat: -1, PID: nextPID()}
 			case 2:
 				op = opSpec{Kind: "join", Seat: rng.Intn(n+1) - 1, PID: nextPID()}
+			case 4:
+				if j == 0 {
+					op = opSpec{Kind: "next"}
+				} else {
+					op = r.randomOp(rng, nextPID)
+					if op.Kind == "join" && op.Seat == -1 {
+						op.Seat = rng.Intn(n)
+					}
+				}
 			default:
 				op = r.randomOp(rng, nextPID)
 			}
@@ -805,7 +863,14 @@ func (r *run) findG(id int) *gor {
 
 func (r *run) concSpawn(id int, op opSpec) *gor {
 	r.clock++
+	if r.sc.unfinished() == 0 {
+		if len(r.burstOps) > 0 {
+			r.burstDone()
+		}
+		r.burstSnap = r.snapshot(r.m)
+	}
 	g := r.sc.spawn(id, op, r.doConc)
+	r.burstOps = append(r.burstOps, g)
 	if r.sc.fault != "" {
 		r.res.Fault = r.sc.fault
 		r.dead = true
@@ -842,6 +907,9 @@ func (r *run) concRun(id int) bool {
 			x.ret = r.clock
 			r.finished(x)
 		}
+	}
+	if r.sc.unfinished() == 0 && len(r.burstOps) > 0 {
+		r.burstDone()
 	}
 	h := sim.Mix(sim.HashString(g.label), uint64(len(r.sc.parked())), uint64(r.sc.unfinished()))
 	if !r.seenT[h] {
@@ -1062,4 +1130,155 @@ func (w World) Simplify(c *sim.Case) []*sim.Case {
 		}
 	}
 	return out
+}
+
+
+// ---- sequential equivalence of a concurrent burst --------------------------------
+
+func (r *run) snapshot(m *sm.SeatManager) *sm.SeatManagerState {
+	st := &sm.SeatManagerState{Max: r.cfg.Max, Seats: map[int]*sm.Seat{}, Dealer: seatID(m.Dealer()), SB: seatID(m.SmallBlind()), BB: seatID(m.BigBlind())}
+	for _, s := range m.GetSeats() {
+		c := *s
+		st.Seats[s.ID] = &c
+	}
+	return st
+}
+
+func cloneSnap(st *sm.SeatManagerState) *sm.SeatManagerState {
+	c := &sm.SeatManagerState{Max: st.Max, Seats: map[int]*sm.Seat{}, Dealer: st.Dealer, SB: st.SB, BB: st.BB}
+	for k, v := range st.Seats {
+		x := *v
+		c.Seats[k] = &x
+	}
+	return c
+}
+
+type outcome struct {
+	seats      []seatView
+	d, sb, bb  int
+}
+
+func observeOutcome(m *sm.SeatManager) outcome {
+	o := outcome{d: seatID(m.Dealer()), sb: seatID(m.SmallBlind()), bb: seatID(m.BigBlind())}
+	for _, s := range m.GetSeats() {
+		v := seatView{occ: s.Player != nil, active: s.IsActive, reserved: s.IsReserved}
+		if p, ok := s.Player.(int32); ok {
+			v.who = p
+		}
+		o.seats = append(o.seats, v)
+	}
+	return o
+}
+
+// burstDone is called when no operation is in flight any more. For small
+// bursts without "any seat" joins (whose pick depends on the random source)
+// the concurrent outcome - every result, the seat map, the positions - must
+// be the outcome of SOME sequential order of the same operations on the same
+// code, respecting real-time order. This is what makes a Next() that is not
+// atomic (positions computed from a seat map that changed under it) visible.
+func (r *run) burstDone() {
+	ops := r.burstOps
+	snap := r.burstSnap
+	r.burstOps, r.burstSnap = nil, nil
+	if r.dead || snap == nil || len(ops) < 2 || len(ops) > 5 {
+		return
+	}
+	hasNext := false
+	for _, g := range ops {
+		if g.op.Kind == "join" && g.op.Seat == -1 {
+			return
+		}
+		if g.res.Panic != "" {
+			return // reported as a panic already
+		}
+		if g.op.Kind == "next" {
+			hasNext = true
+		}
+	}
+	_ = hasNext
+	r.probe("burst-checked-against-sequential-orders")
+	got := observeOutcome(r.m)
+	n := len(ops)
+	perm := make([]int, n)
+	used := make([]bool, n)
+	okC18, okC17, okC08 := false, false, false
+	var try func(k int)
+	try = func(k int) {
+		if okC08 {
+			return
+		}
+		if k == n {
+			rep := sm.NewSeatManager(r.cfg.Max)
+			rep.ApplyStates(cloneSnap(snap))
+			save := r.m
+			r.m = rep
+			match := true
+			for _, i := range perm {
+				res := r.exec(ops[i].op)
+				if res != ops[i].res {
+					match = false
+					break
+				}
+			}
+			r.m = save
+			if !match {
+				return
+			}
+			o := observeOutcome(rep)
+			for i := range o.seats {
+				if o.seats[i].occ != got.seats[i].occ || o.seats[i].who != got.seats[i].who || o.seats[i].reserved != got.seats[i].reserved {
+					return
+				}
+			}
+			okC18 = true
+			if o.d != got.d {
+				return
+			}
+			okC17 = true
+			if o.sb != got.sb || o.bb != got.bb {
+				return
+			}
+			for i := range o.seats {
+				if o.seats[i].active != got.seats[i].active {
+					return
+				}
+			}
+			okC08 = true
+			return
+		}
+		for i := 0; i < n; i++ {
+			if used[i] {
+				continue
+			}
+			// real-time order: an operation that returned before another was
+			// invoked must come first
+			okOrder := true
+			for j := 0; j < n; j++ {
+				if !used[j] && j != i && ops[j].ret >= 0 && ops[i].call >= 0 && ops[j].ret < ops[i].call {
+					okOrder = false
+				}
+			}
+			if !okOrder {
+				continue
+			}
+			used[i] = true
+			perm[k] = i
+			try(k + 1)
+			used[i] = false
+		}
+	}
+	try(0)
+	desc := ""
+	for _, g := range ops {
+		desc += fmt.Sprintf("[%d..%d %+v -> %+v] ", g.call, g.ret, g.op, g.res)
+	}
+	desc += fmt.Sprintf("=> dealer %d sb %d bb %d seats %v", got.d, got.sb, got.bb, got.seats)
+	switch {
+	case !okC18:
+		r.viol("C18", "concurrent-outcome-matches-no-sequential-order", "results / seat map: "+desc)
+	case !okC17:
+		r.viol("C17", "concurrent-outcome-matches-no-sequential-order", "dealer: "+desc)
+	case !okC08:
+		r.viol("C08", "concurrent-outcome-matches-no-sequential-order", "blinds / active seats: "+desc)
+	}
 }
